@@ -143,6 +143,32 @@ def histories(M, rec, rng, reps):
         st = netmon.graph_state(net)
         hist = []
         for _s in range(rng.randint(2, 12)):
+            if rng.random() < 0.3:
+                # the caller looks things up in between (the lookups are then memoised)
+                for nm_ in rng.sample(("nodes_by_link", "links_by_name", "nodes_by_name", "origins", "destinations"), 2):
+                    getattr(net, nm_)
+            if st["edges"] and rng.random() < 0.15:
+                # a road is closed through the graph the network hands out, and later (maybe at once, maybe by
+                # a later call) put back, at the same place or elsewhere, with the same link object
+                byid = {id(x): x for x in N + L}
+                (uu, vv), ll = rng.choice(list(st["edges"].items()))
+                if uu in byid and vv in byid and ll in byid:
+                    rng.choice((net.G, net.graph)).remove_edge(byid[uu], byid[vv])
+                    st = netmon.model_apply(st, ("remove_edge", byid[uu], byid[vv]))
+                    rec.count("edges_removed_through_the_graph")
+                    if rng.random() < 0.7:
+                        u2, v2 = (byid[uu], byid[vv]) if rng.random() < 0.6 else (rng.choice(N), rng.choice(N))
+                        how = rng.choice(("add_path", "add_link", "add_links"))
+                        if how == "add_path":
+                            net.add_path((u2, byid[ll], v2))
+                        elif how == "add_link":
+                            net.add_link(u2, byid[ll], v2)
+                        else:
+                            net.add_links([(u2, byid[ll], v2)])
+                        st = netmon.model_apply(st, ("add_link", u2, byid[ll], v2))
+                        rec.count("removed_links_put_back")
+                        if not netmon.compare_state(rec, PROP, netmon.graph_state(net), st, (how + " of a link that had been removed through the graph",)):
+                            break
             if rng.random() < 0.15:
                 # an object that may already be in the network gets another name (a plain public attribute):
                 # it is still the same node / link / origin for every later call
